@@ -69,9 +69,9 @@ func (c *SyncConfig) fix() error {
 	}
 
 	if c.Output.Redis.Type == RedisTypeCluster {
-		if c.Output.Replay.TargetDb == -1 || c.Output.Replay.TargetDb == 0 {
-			c.Output.Filter.DbBlacklist = []int{}
-		} else {
+		// (the database blacklist stays as configured : a cluster target merges every source
+		// database into its one keyspace, the blacklist is what keeps one out)
+		if c.Output.Replay.TargetDb != -1 && c.Output.Replay.TargetDb != 0 {
 			return newConfigError("redis is cluster, but targetdb is not 0")
 		}
 		for _, db := range c.Output.Replay.TargetDbMap {
